@@ -4715,3 +4715,197 @@ func checkJointProofPositions(p *Program, r *Report, rule string) {
 		r.Discharge(rule, "package/single-target-helper-never-accumulated", "-", fmt.Sprintf("%d single-target helper(s) (%s), %d call site(s), none accumulated over a loop", len(single), strings.Join(names, ", "), n), true)
 	}
 }
+
+// ---------------------------------------------------------------------------
+// R09i RECOMPUTED-NODE-FLAG. When the map forest stores a node whose hash it
+// has just recomputed (an ancestor of a changed leaf), the keep flag stored
+// with it is the forest's own configuration (Full), a constant, or the flag
+// the node at that very position already had - never the flag of another node
+// (the sibling that moved up, a child) or of a parameter. A flag copied from a
+// remembered leaf onto its ancestors makes them and their siblings unprunable.
+
+// structFieldOrigins: where the named field of the struct value v (a load of a
+// local variable) may come from: values stored into the field, and for stores
+// of the whole struct the stored struct value itself (marked whole).
+type fieldOrigin struct {
+	val   ssa.Value
+	whole bool
+}
+
+func structFieldOrigins(v ssa.Value, field string) []fieldOrigin {
+	u, ok := v.(*ssa.UnOp)
+	if !ok {
+		return []fieldOrigin{{v, true}}
+	}
+	al, ok := u.X.(*ssa.Alloc)
+	if !ok || al.Referrers() == nil {
+		return []fieldOrigin{{v, true}}
+	}
+	var out []fieldOrigin
+	for _, ref := range *al.Referrers() {
+		switch x := ref.(type) {
+		case *ssa.Store:
+			if x.Addr == al {
+				out = append(out, fieldOrigin{x.Val, true})
+			}
+		case *ssa.FieldAddr:
+			if fieldName(x.X.Type(), x.Field) != field || x.Referrers() == nil {
+				continue
+			}
+			for _, r2 := range *x.Referrers() {
+				if st, ok := r2.(*ssa.Store); ok && st.Addr == x {
+					out = append(out, fieldOrigin{st.Val, false})
+				}
+			}
+		}
+	}
+	return out
+}
+
+func checkRecomputedNodeFlag(p *Program, r *Report, rule string) {
+	hashFn := p.Func("parentHash")
+	if hashFn == nil {
+		r.MissingAnchor(rule, "parentHash", "parent hash function not found")
+		return
+	}
+	fromHash := func(v ssa.Value) bool {
+		return flowsFrom(v, func(x ssa.Value) bool {
+			c, ok := x.(*ssa.Call)
+			return ok && c.Common().StaticCallee() == hashFn
+		}, 0, map[ssa.Value]bool{})
+	}
+	n := 0
+	for _, g := range p.Funcs {
+		if g.Blocks == nil || g.Signature.Recv() == nil || !p.localNamed(g.Signature.Recv().Type(), "MapPollard") || g.Parent() != nil {
+			continue
+		}
+		ord := 0
+		for _, b := range g.Blocks {
+			for _, in := range b.Instrs {
+				kind, method, cc := storeCall(p, in)
+				if kind != "nodes" || method != "Put" || len(cc.Args) < 2 {
+					continue
+				}
+				// The assignments that recompute the hash. Where the flag is assigned together with the
+				// hash (a composite literal: both field stores in one block) that flag is the one that
+				// belongs to the recomputed node; where the hash is assigned alone the flag is whatever
+				// the variable held before, i.e. any of its other origins.
+				recomputed := false
+				var flagOrigins []fieldOrigin
+				paired := true
+				if u, ok := cc.Args[1].(*ssa.UnOp); ok {
+					if al, ok := u.X.(*ssa.Alloc); ok && al.Referrers() != nil {
+						for _, ref := range *al.Referrers() {
+							fa, ok := ref.(*ssa.FieldAddr)
+							if !ok || fieldName(fa.X.Type(), fa.Field) != "Hash" || fa.Referrers() == nil {
+								continue
+							}
+							for _, r2 := range *fa.Referrers() {
+								st, ok := r2.(*ssa.Store)
+								if !ok || st.Addr != fa || !fromHash(st.Val) {
+									continue
+								}
+								recomputed = true
+								found := false
+								for _, ref3 := range *al.Referrers() {
+									fb, ok := ref3.(*ssa.FieldAddr)
+									if !ok || fieldName(fb.X.Type(), fb.Field) != "Remember" || fb.Referrers() == nil {
+										continue
+									}
+									for _, r4 := range *fb.Referrers() {
+										if st2, ok := r4.(*ssa.Store); ok && st2.Addr == fb && st2.Block() == st.Block() {
+											flagOrigins = append(flagOrigins, fieldOrigin{st2.Val, false})
+											found = true
+										}
+									}
+								}
+								if !found {
+									paired = false
+								}
+							}
+						}
+					}
+				}
+				if !recomputed {
+					continue
+				}
+				if !paired {
+					flagOrigins = structFieldOrigins(cc.Args[1], "Remember")
+				}
+				ord++
+				n++
+				key := fmt.Sprintf("%s/put-recomputed#%d/flag", p.FuncName(g), ord)
+				bad := ""
+				var check func(v ssa.Value, whole bool, depth int)
+				check = func(v ssa.Value, whole bool, depth int) {
+					if bad != "" || depth > 8 {
+						return
+					}
+					switch x := v.(type) {
+					case *ssa.Const:
+						return
+					case *ssa.Parameter:
+						bad = "parameter " + x.Name()
+					case *ssa.Phi:
+						for _, e := range x.Edges {
+							check(e, whole, depth+1)
+						}
+					case *ssa.BinOp:
+						check(x.X, false, depth+1)
+						check(x.Y, false, depth+1)
+					case *ssa.UnOp:
+						if x.Op == token.NOT {
+							check(x.X, false, depth+1)
+							return
+						}
+						if fa, ok := x.X.(*ssa.FieldAddr); ok {
+							// a field of the receiver (the configuration) or of a local struct
+							if _, isPar := fa.X.(*ssa.Parameter); isPar && fa.X == ssa.Value(g.Params[0]) {
+								return
+							}
+							bad = "field " + fieldName(fa.X.Type(), fa.Field) + " of another value"
+							return
+						}
+						if _, ok := x.X.(*ssa.Alloc); ok {
+							for _, o := range structFieldOrigins(x, "Remember") {
+								check(o.val, o.whole, depth+1)
+							}
+							return
+						}
+						bad = "a value loaded from memory"
+					case *ssa.Field:
+						// field of a struct value: allowed when the struct is the result of a look-up at the same position
+						if ex, ok := x.X.(*ssa.Extract); ok {
+							if k, m, gc := storeCall(p, ex.Tuple.(ssa.Instruction)); k == "nodes" && m == "Get" && len(gc.Args) > 0 && sameValue(gc.Args[0], cc.Args[0]) {
+								return
+							}
+						}
+						bad = "the flag of a node read at another position"
+					case *ssa.Extract:
+						if whole {
+							if k, m, gc := storeCall(p, x.Tuple.(ssa.Instruction)); k == "nodes" && m == "Get" && len(gc.Args) > 0 && sameValue(gc.Args[0], cc.Args[0]) {
+								return
+							}
+							bad = "the node read at another position"
+							return
+						}
+						bad = "a call result"
+					case *ssa.Call:
+						bad = "a call result"
+					default:
+						bad = fmt.Sprintf("%T", v)
+					}
+				}
+				for _, o := range flagOrigins {
+					check(o.val, o.whole, 0)
+				}
+				if bad != "" {
+					r.Violate(rule, key, posOf(p, in), "the keep flag stored with a recomputed node comes from "+bad+": an ancestor inherits the flag of a remembered leaf (or of whatever was passed in) and can, with its sibling, never be pruned again", "in "+p.FuncName(g))
+				} else {
+					r.Discharge(rule, key, posOf(p, in), "the keep flag of the recomputed node is the configuration, a constant or the flag already stored at that position", true)
+				}
+			}
+		}
+	}
+	r.Floor(rule, "stores of recomputed nodes in the map forest", n, 2)
+}
